@@ -138,6 +138,11 @@ def run(chk):
             pos = (rng.uniform(-2.5e5, 2.5e5), rng.uniform(-2.5e5, 2.5e5), TOP - d)
             ps = [[[2, 0, 0], [2, 1, 0], [4, 0, 0], [5, 0, 0], [1, 0, 0]], [[2, 0, 0], [4, 0, 0], [2, 2, 0], [5, 0, 0]], [[1, 0, 0], [2, 0, 0], [2, 1, 0], [4, 0, 0]],
                   [[5, 0, 0], [2, 0, 0], [1, 0, 0], [2, 1, 0], [4, 0, 0]], [[2, 0, 0], [2, 1, 0], [4, 0, 0]], [[2, 1, 0], [2, 0, 0], [5, 0, 0], [4, 0, 0]]][qi]
+            # the single-property entry point at and above the surface (negative depths included) against the batched request
+            for dn in (d, -1.0, -9.3e-10, -1e-17, 1e-17):
+                pn = (pos[0], pos[1], TOP - dn)
+                plan.append({"repeat": cs.single3(sl, "t3", pn, dn), "of": cs.p3(sl, pn, dn, [[1, 0, 0]]),
+                             "what": "the single-property entry point World::temperature answers differently from the batched request [temperature] (depth %g, forced surface temperature)" % dn})
             ib = cs.p3(sl, pos, d, ps)
             for j, p1 in enumerate(ps):
                 plan.append({"repeat": cs.p3(sl, pos, d, [p1]), "of_block": (ib, ps, j),
